@@ -18,11 +18,11 @@ cd /verif && rm -rf replays/$pid
 if [ "${SCRATCH:-0}" = 1 ]; then
   d=$(mktemp -d /tmp/mutrepo.XXXXXX); git -C /repo archive HEAD elementpath | tar -x -C $d
   (cd $d && patch -s -p1 < $m/patch.diff) || { echo "patch does not apply to the copy"; rm -rf $d; exit 2; }
-  VERIF_REPO=$d timeout 1200 ./check $pid --no-evidence "$@" > /tmp/chk_$pid-$k.out 2>&1; code=$?
+  VERIF_REPO=$d timeout 1200 ./check ${CHECK_PROP:-$pid} --no-evidence "$@" > /tmp/chk_$pid-$k.out 2>&1; code=$?
   rm -rf $d
 else
   git -C /repo apply $m/patch.diff || { echo "patch does not apply to /repo"; exit 2; }
-  timeout 1200 ./check $pid --no-evidence "$@" > /tmp/chk_$pid-$k.out 2>&1; code=$?
+  timeout 1200 ./check ${CHECK_PROP:-$pid} --no-evidence "$@" > /tmp/chk_$pid-$k.out 2>&1; code=$?
   git -C /repo checkout -q -- .
   git -C /repo status --short | head -3
 fi
@@ -33,6 +33,6 @@ echo "check exit=$code"
 mkdir -p $out && cp $m/patch.diff $m/demo.py $out/ && cp $m/notes.md $out/notes.md 2>/dev/null
 cat > $out/meta.json <<META
 {"property": "$pid", "repo_head": "$(git -C /repo rev-parse --short HEAD)", "source": "sub-agent ${OUT_TAG:-r1} $pid change $k", "demo_exit_pristine": $demo_clean, "demo_exit_with_change": $demo_mut,
- "baseline_with_change": "$base", "check_cmd": "./check $pid --no-evidence $*", "check_exit_with_change": $code,
+ "baseline_with_change": "$base", "check_cmd": "./check ${CHECK_PROP:-$pid} --no-evidence $*", "check_exit_with_change": $code,
  "violations_reported": $(grep -c "^VIOLATION" /tmp/chk_$pid-$k.out)}
 META
